@@ -1164,6 +1164,13 @@ func (broker *Broker) startTrack(wg *sync.WaitGroup) {
 				}
 				pFile = progress[key]
 			} else if pFile.hash != binned.GetFileHash() {
+				if cached := broker.Conf.Cache.Get(key); cached != nil &&
+					cached.GetHash() == pFile.hash {
+					// A payload carrying a superseded version of this file
+					// completed late (requests overlap); what is being
+					// tracked is the current version, so don't start over
+					continue
+				}
 				pFile.sent = 0
 				pFile.size = binned.GetSendSize()
 				pFile.started = payload.GetStarted()
